@@ -345,6 +345,30 @@ LitToks == [j \in 1..Len(S!NumLitsOK) |-> TNum(S!NumLitsOK[j])] \o [j \in 1..Len
 KeyToks == [j \in 1..Len(S!NumLitsKey) |-> TNum(S!NumLitsKey[j])] \o [j \in 1..Len(S!StrLitsOK) |-> TStr(S!StrLitsOK[j])]
            \o [j \in 1..Len(S!NumLitsBad) |-> TNum(S!NumLitsBad[j])]
 
+(* long numeric literals of every radix form (values computed by NumLitMV)   *)
+LongToks == [j \in 1..Len(S!NumLitsLong) |-> TNum(S!NumLitsLong[j])]
+
+(* 11.1.5 / 11.2.1 / 7.6: a PropertyName and the name after "." are          *)
+(* IdentifierNames: every reserved word, future reserved word and literal    *)
+(* word, and get / set themselves, name data properties and accessors        *)
+RwSeq == SetToSeq(S!KeywordNames) \o <<"get", "set", "a">>
+WordTok(w) == IF w \in S!KeywordNames THEN TK(w) ELSE TI(w)
+FnTail(ps) == <<TP("(")>> \o ps \o <<TP(")"), TP("{"), TP("}")>>
+RwPrograms(w) ==
+    LET W == WordTok(w) IN
+    << <<TI("x"), TP("="), TP("{"), W, TP(":"), TNum(<<49>>), TP("}"), TP(";")>>,
+       <<TI("x"), TP("="), TP("{"), TI("get"), W>> \o FnTail(<<>>) \o <<TP("}"), TP(";")>>,
+       <<TI("x"), TP("="), TP("{"), TI("set"), W>> \o FnTail(<<TI("v")>>) \o <<TP("}"), TP(";")>>,
+       <<TI("x"), TP("="), TP("{"), TI("get"), W>> \o FnTail(<<>>) \o <<TP(","), TI("set"), W>> \o FnTail(<<TI("v")>>) \o <<TP(","), TP("}"), TP(";")>>,
+       <<TI("x"), TP("="), TP("{"), TI("get"), TP(":"), TNum(<<49>>), TP(","), TI("get"), W>> \o FnTail(<<>>)
+           \o <<TP(","), TI("set"), TP(":"), TNum(<<50>>), TP(","), TI("set"), W>> \o FnTail(<<TI("v")>>) \o <<TP("}"), TP(";")>>,
+       <<TI("x"), TP("="), TP("{"), TI("b"), TP(":"), TNum(<<49>>), TP(","), W, TP(":"), TP("{"), W, TP(":"), TNum(<<50>>), TP("}"), TP("}"), TP(";")>>,
+       <<TI("a"), TP("."), W, TP(";")>>,
+       <<TI("a"), TP("."), W, TP("="), TI("a"), TP("."), W, TP("("), TP(")"), TP("."), W, TP(";")>>,
+       <<TK("new"), TI("a"), TP("."), W, TP(";")>>,
+       <<TI("a"), TP("."), W, TP("++"), TP(";")>> >>
+NRwP == 10
+
 (* lexical cases: source text written out, with its tokenisation by the      *)
 (* longest-match rule of clause 7 (and the goal symbols of 7: a "/" starts a *)
 (* RegularExpressionLiteral exactly where the syntactic grammar allows one)  *)
@@ -504,6 +528,8 @@ Next ==
          [] fam = "seq" -> \E j \in {x \in 1..Len(SeqPool) : x % KB = bi - 1} : cs' = [t |-> "seq", fam |-> fam, T |-> SeqPool[j]]
          [] fam = "lit" -> \E j \in {x \in 1..Len(LitToks) : x % KB = bi - 1} : cs' = [t |-> "seq1", fam |-> fam, T |-> LitProgram(LitToks[j])]
          [] fam = "key" -> \E j \in {x \in 1..Len(KeyToks) : x % KB = bi - 1} : cs' = [t |-> "seq1", fam |-> fam, T |-> KeyProgram(KeyToks[j])]
+         [] fam = "long" -> \E j \in {x \in 1..Len(LongToks) : x % KB = bi - 1} : cs' = [t |-> "seq1", fam |-> fam, T |-> LitProgram(LongToks[j])]
+         [] fam = "rw" -> \E j \in {x \in 1..Len(RwSeq) : x % KB = bi - 1}, m \in 1..NRwP : cs' = [t |-> "seq1", fam |-> fam, T |-> RwPrograms(RwSeq[j])[m]]
          [] fam = "lex" -> \E j \in {x \in 1..Len(LexPool) : x % KB = bi - 1} : cs' = [t |-> "lex", fam |-> fam, c |-> LexPool[j]]
 
 Lines(c) ==
